@@ -6,6 +6,7 @@ void registerNet(std::map<std::string, vh::Op>& ops);
 void registerHeaders(std::map<std::string, vh::Op>& ops);
 void registerCookie(std::map<std::string, vh::Op>& ops);
 void registerParser(std::map<std::string, vh::Op>& ops);
+void registerRouter(std::map<std::string, vh::Op>& ops);
 int main()
 {
     std::map<std::string, vh::Op> ops;
@@ -15,5 +16,6 @@ int main()
     registerHeaders(ops);
     registerCookie(ops);
     registerParser(ops);
+    registerRouter(ops);
     return vh::runLoop(ops);
 }
